@@ -416,6 +416,12 @@ impl BlobReader {
     pub async fn read_all(&mut self) -> Result<Vec<u8>> {
         let mut result = Vec::with_capacity(self.total_size);
 
+        // What an earlier `read` loaded but has not handed out yet is remaining data too
+        if let Some(data) = self.current_data.take() {
+            result.extend_from_slice(&data[self.current_offset.min(data.len())..]);
+            self.current_offset = 0;
+        }
+
         while let Some(chunk) = self.next_chunk().await? {
             result.extend(chunk);
         }
